@@ -176,6 +176,27 @@ def encode_copies_row(i: int) -> numpy.ndarray:
     return Rows.TABLE[i].copy()         # pure twin: a private copy
 
 
+class Context:
+    def __init__(self):
+        self.header = None
+
+    def attach(self, header) -> "Context":
+        self.header = header
+        return self
+
+
+class Renders:
+    def __init__(self):
+        self.sub = Context()
+        self.header = 1
+
+    def __repr__(self) -> str:
+        return "R" + str(id(self.sub.attach(self.header)))     # a rendering with a side effect on an object it holds
+
+    def __str__(self) -> str:
+        return "R" + str(self.header)                          # pure twin
+
+
 class LazyLength:
     ONE_SHOT = (n for n in range(3))          # class-level generator: consumed by its first user
 
